@@ -4,6 +4,8 @@ Engine A: the real pools.py / workers.py / maps.py over the virtual multiprocess
 the producer/consumer loop and the worker processes within a preemption bound, plus one spurious `Empty`
 (non-blocking get on a multiprocessing.Queue whose feeder thread has not delivered yet) as environment
 deviation."""
+import collections
+
 from mc import vmp
 from checks.poolmc import Kit, run_pool_check, blocked_sig, f, Config as _PoolConfig
 from mc import vsched
@@ -37,11 +39,17 @@ class Cfg:
 
 
 # items a map must treat like any other: None (also what the pools use as their own stop token), falsy and empty ones
-VALUES = [0, None, False, None, "", (), None]
+# ... and items that are equal but not the same value for f (1 / True / 1.0, 0.0 / -0.0), next to each other in a chunk
+VALUES = [1, True, 0.0, -0.0, "", None, 1.0, None, 0, ()]
 
 
 def wrap(x):
     return ("w", x)
+
+
+def same_results(got, exp):
+    """== would take 1, True and 1.0 (0.0 and -0.0) for the same result"""
+    return got is not None and [repr(x) for x in got] == [repr(x) for x in exp]
 
 
 def make_driver(cfg):
@@ -66,7 +74,7 @@ def make_driver(cfg):
                     data = cfg.data_of(k, n)
                     rec = {"data": data, "yielded": [], "finished": False, "cs": cs}
                     out["calls"].append(rec)
-                    inp = vmp.LazyInput(data) if ikind == "lazy" else data
+                    inp = vmp.LazyInput(data) if ikind == "lazy" else (collections.deque(data) if ikind == "deque" else data)
                     if exact:
                         # the consumer takes exactly len(data) results (zip / islice style) and never asks for more:
                         # the generator stays suspended at its last yield
@@ -88,7 +96,7 @@ def make_driver(cfg):
                 data = cfg.data_of(k, n)
                 rec = {"data": data, "yielded": None, "finished": False, "cs": 1}
                 out["calls"].append(rec)
-                inp = vmp.LazyInput(data) if ikind == "lazy" else data
+                inp = vmp.LazyInput(data) if ikind == "lazy" else (collections.deque(data) if ikind == "deque" else data)
                 res = M.mul_p_map(cfg.fn, inp, nworkers)
                 rec["yielded"] = list(res)
                 rec["finished"] = True
@@ -121,9 +129,9 @@ def judge(cfg, r):
         exp = [cfg.fn(x) for x in rec["data"]]
         got = rec["yielded"]
         if rec["finished"]:
-            bad = got != exp
+            bad = not same_results(got, exp)
         else:
-            bad = got is not None and got != exp[:len(got)]
+            bad = got is not None and not same_results(got, exp[:len(got)])
         if bad:
             if cfg.values:
                 cls = "missing" if len(got) < len(exp) else "other"
@@ -169,7 +177,8 @@ def plan_for(tier):
     plan.append((Cfg("FM2x[w2,n2 exact;n2]", "fmap", 2, [("list", 2, 1, "exact"), ("list", 2, 1)]), b, 1, None))
     plan.append((Cfg("FM2x[w1,n3cs2 exact;n1;n2]", "fmap", 1, [("list", 3, 2, "exact"), ("list", 1, 1), ("list", 2, 1, "exact")]), b, 1, None))
     plan.append((Cfg("FM2p[w2,n2;n3cs2 precreated]", "fmap", 2, [("list", 2, 1, "precreate"), ("list", 3, 2, "precreate")]), b, 1, None))
-    plan.append((Cfg("FMv[w2,n4,cs2]", "fmap", 2, [("list", 4, 2), ("list", 3, 1)], values=True), 1, 1, None))
+    plan.append((Cfg("FMv[w2,n6,cs2;n3,cs3]", "fmap", 2, [("list", 6, 2), ("list", 3, 3)], values=True), 1, 1, None))
+    plan.append((Cfg("FMd[w2,deque3,cs2]", "fmap", 2, [("deque", 3, 2)]), 1, 1, None))
     plan.append((Cfg("FM[cpu,n2]", "fmap", -1, [("list", 2, 1)], cpu_count=2), 2, 1, None))
     # mul_p_map: W x n, consecutive calls on the shared class-level queues
     plan.append((Cfg("MP[w1,n2]", "mulp", 1, [("list", 2)], cpu_count=1), None if not q else 3, 1, None))
@@ -181,6 +190,7 @@ def plan_for(tier):
     plan.append((Cfg("MP2[w2:n1;w1:n2]", "mulp", 2, [("list", 1, 2), ("list", 2, 1)]), 2 if q else 3, 1, None))
     plan.append((Cfg("MP3[w3:n1;w2:n2;w1:n1]", "mulp", 3, [("list", 1, 3), ("list", 2, 2), ("list", 1, 1)], cpu_count=3), 1 if q else 2, 1, None))
     plan.append((Cfg("MPv[w2,n3]", "mulp", 2, [("list", 3)], values=True), b, 1, None))
+    plan.append((Cfg("MPd[w2,deque2]", "mulp", 2, [("deque", 2)]), b, 1, None))
     plan.append((Cfg("MP[cpu,n2]", "mulp", -1, [("lazy", 2)], cpu_count=2), 2 if q else 3, 1, None))
     grid = []
     if not q:
